@@ -113,7 +113,7 @@ impl Prop for C14Prop {
         "C14"
     }
     fn rule(&self) -> String {
-        "Cases are (evaluator, expression E with 0..n occurrences of @, placeholder p from the boundary pool incl. NaN payloads, +-inf, -0.0, i64 extremes, Decimal values of distinct scales, Integer vs Float). Sub-checks: sweep (a fixed list of 14 forms, each evaluated consecutively on one thread with every pool placeholder in both orders, every answer compared with the literal-substituted form); identity (@, (@), +@ return p identically: to_bits incl. NaN payload / variant / value+scale+sign) for every pool value (exhaustive); substitution (E evaluated with p equals E with every @ replaced by a bracketed literal expression that was first verified to evaluate to exactly p, evaluated with an unrelated placeholder); independence (E without @ gives the same outcome for every placeholder); reference evaluation with @ bound (exact sub-languages); twin re-evaluation (the same text immediately re-evaluated with a placeholder that compares equal or adjacent - other sign of zero, other Decimal scale, other Number variant, neighbouring double - and then with the original again). non-trivial = >=1 @ under >=1 operator and a placeholder different from the type's default; distinct by (evaluator,E,p).".into()
+        "Cases are (evaluator, expression E with 0..n occurrences of @, placeholder p from the boundary pool incl. NaN payloads, +-inf, -0.0, i64 extremes, Decimal values of distinct scales, Integer vs Float). Sub-checks: sweep (a fixed list of 14 forms, each evaluated consecutively on one thread with every pool placeholder in both orders, every answer compared with the literal-substituted form); identity (@, (@), +@ return p identically: to_bits incl. NaN payload / variant / value+scale+sign) for every pool value (exhaustive); substitution (E evaluated with p equals E with every @ replaced by a bracketed literal expression that was first verified to evaluate to exactly p, evaluated with an unrelated placeholder); independence (E without @ gives the same outcome for every placeholder); reference evaluation with @ bound (exact sub-languages); twin re-evaluation (the same text immediately re-evaluated with a placeholder that compares equal or adjacent - other sign of zero, other Decimal scale, other Number variant, neighbouring double - and then with the original again); keyed-pairs (two consecutive calls (t1,p1),(t2,p2) where p2's bits are derived from p1's bits and the standard-library or FNV hashes of t1 and t2 by xor/add/sub, the coincidence a result cache keyed by hash(text) combined with the placeholder bits would need; the second answer must equal the same call made after an unrelated one). non-trivial = >=1 @ under >=1 operator and a placeholder different from the type's default; distinct by (evaluator,E,p).".into()
     }
     fn subs(&self, tier: Tier) -> Vec<Sub> {
         let ident: u64 = Ev::ALL.iter().map(|ev| ph_pool(*ev).len() as u64 * 4).sum();
@@ -123,6 +123,7 @@ impl Prop for C14Prop {
             Sub { name: "sweep", kind: SubKind::Enum { count: sweep } },
             Sub { name: "substitution", kind: SubKind::Random { cases: tier.pick(500_000, 20_000_000), len: 160 } },
             Sub { name: "independence", kind: SubKind::Random { cases: tier.pick(100_000, 5_000_000), len: 160 } },
+            Sub { name: "keyed-pairs", kind: SubKind::Random { cases: tier.pick(60_000, 2_000_000), len: 160 } },
         ]
     }
     fn gen_enum(&self, sub: &str, mut idx: u64, _tier: Tier) -> Option<Case> {
@@ -143,6 +144,23 @@ impl Prop for C14Prop {
         None
     }
     fn gen(&self, sub: &str, c: &mut dyn Choices) -> Option<Case> {
+        if sub == "keyed-pairs" {
+            // Two consecutive calls (t1,p1), (t2,p2) whose second placeholder is derived from the first call: the bit
+            // patterns are related through the standard library's hash of the two texts (the key a result cache keyed by
+            // "hash of the text combined with the placeholder bits" would compute). Random placeholders never hit this.
+            let ev = [Ev::F64, Ev::I64, Ev::Num][c.below(3) as usize];
+            let mut p = profile(ev);
+            p.max_depth = 3;
+            let t1 = if c.below(3) == 0 { ["@+1", "3*4", "@", "2*@", "@*@"][c.below(5) as usize].to_string() } else { grammar::render(&gen::gen_expr(&p, c, 3)) };
+            let t2 = if c.below(3) == 0 { ["@", "2*@", "@+1", "@-1", "-@", "@/2"][c.below(6) as usize].to_string() } else { format!("{}+@", grammar::render(&gen::gen_expr(&p, c, 2))) };
+            if t1 == t2 || char_len(&t1) > 100 || char_len(&t2) > 100 {
+                return None;
+            }
+            let p1 = pick_ph(ev, c);
+            let mut case = Case::new(ev, t2, p1);
+            case.aux = vec![t1, format!("{}", c.below(4)), format!("{}", c.below(4))];
+            return Some(case);
+        }
         let ev = Ev::ALL[c.below(5) as usize];
         let mut p = profile(ev);
         let ph = pick_ph(ev, c);
@@ -216,6 +234,79 @@ impl Prop for C14Prop {
                     return Err(Failure::new(format!("{}/identity", ev.name()), format!("Ok({}) identically [{}]", case.ph.show(), case.ph.enc()), format!("{} [{}]", o.show(), o.enc())));
                 }
                 sc.nontrivial(case.hash(), || sample(case, &o.show()));
+                Ok(())
+            }
+            "keyed-pairs" => {
+                use std::hash::{Hash, Hasher};
+                let (t1, hk, ck) = match (case.aux.first(), case.aux.get(1).and_then(|s| s.parse::<u32>().ok()), case.aux.get(2).and_then(|s| s.parse::<u32>().ok())) {
+                    (Some(a), Some(b), Some(c)) => (a.clone(), b, c),
+                    _ => return Ok(()),
+                };
+                let t2 = &case.input;
+                if accept(ev, t2).is_none() || accept(ev, &t1).is_none() {
+                    sc.exclude("not accepted by the reference parser");
+                    return Ok(());
+                }
+                let h = |t: &str| -> u64 {
+                    let mut hs = std::collections::hash_map::DefaultHasher::new();
+                    match hk {
+                        0 => t.hash(&mut hs),
+                        1 => hs.write(t.as_bytes()),
+                        2 => t.to_string().into_bytes().hash(&mut hs),
+                        _ => {
+                            // FNV-1a, the other hash people write by hand
+                            let mut x: u64 = 0xcbf29ce484222325;
+                            for b in t.bytes() {
+                                x = (x ^ b as u64).wrapping_mul(0x100000001b3);
+                            }
+                            return x;
+                        }
+                    }
+                    hs.finish()
+                };
+                let bits = |v: &Val| -> u64 {
+                    match v {
+                        Val::F(x) | Val::NF(x) => x.to_bits(),
+                        Val::I(x) | Val::NI(x) => *x as u64,
+                        _ => 0,
+                    }
+                };
+                let (h1, h2, b1) = (h(&t1), h(t2), bits(&case.ph));
+                let b2 = match ck {
+                    0 => b1 ^ h1 ^ h2,
+                    1 => h1.wrapping_add(b1).wrapping_sub(h2),
+                    2 => h2.wrapping_sub(h1).wrapping_add(b1),
+                    _ => h1.wrapping_sub(b1).wrapping_sub(h2).wrapping_neg(),
+                };
+                let p2 = match &case.ph {
+                    Val::F(_) => Val::F(f64::from_bits(b2)),
+                    Val::NF(_) => Val::NF(f64::from_bits(b2)),
+                    Val::I(_) => Val::I(b2 as i64),
+                    Val::NI(_) => Val::NI(b2 as i64),
+                    _ => return Ok(()),
+                };
+                // reference for the second call: the same call right after an unrelated one
+                let _ = eval_normal(sc, ev, "0", &unrelated(ev));
+                let want = match eval_normal(sc, ev, t2, &p2) {
+                    Some(o) => o,
+                    None => return Ok(()),
+                };
+                let _ = eval_normal(sc, ev, "0", &unrelated(ev));
+                let first = match eval_normal(sc, ev, &t1, &case.ph) {
+                    Some(o) => o,
+                    None => return Ok(()),
+                };
+                let got = match eval_normal(sc, ev, t2, &p2) {
+                    Some(o) => o,
+                    None => return Ok(()),
+                };
+                if !got.same(&want) {
+                    return Err(Failure::new(format!("{}/stale-result/keyed-pair", ev.name()), format!("{} (= {:?} with placeholder {})", want.show(), t2, p2.show()), format!("{} right after evaluating {:?} with placeholder {} (= {})", got.show(), t1, case.ph.show(), first.show())));
+                }
+                sc.class("keyed pair agrees");
+                if first.is_ok() && want.is_ok() && !first.same(&want) {
+                    sc.nontrivial(case.hash(), || sample(case, &format!("first call {:?} -> {}; second placeholder {} -> {}", t1, first.show(), p2.show(), want.show())));
+                }
                 Ok(())
             }
             "independence" => {
